@@ -71,27 +71,54 @@ theorem addNode_fresh_nodes (m : Mol) (a : Attrs) :
     simp only [Option.getD_some]
     omega
 
+theorem repl_apply_empty (a : Attrs) : ({} : Repl).apply a = a := by
+  cases a; rfl
+
+theorem updNode_eq_map (nodes : List (Int × Attrs)) (k : Int) (g : Attrs → Attrs) :
+    updNode nodes k g = nodes.map (fun p => if p.1 = k then (p.1, g p.2) else p) := rfl
+
+/-- the first loop of `apply_mod_mapping` on the particle table: existing particles keep their key
+and position (their attributes change only through `replace` dictionaries: not at all when no node
+of the modification has one), new particles are appended; edges and interactions untouched -/
 theorem placeModNodes_prefix (st : St) (p : ModPlacement) (ns : List ModNode) (out out' : Mol)
     (m2o m2o' : List (Int × Int)) (h : placeModNodes st p ns out m2o = some (out', m2o')) :
-    ∃ extra, out'.nodes = out.nodes ++ extra ∧ out'.edges = out.edges ∧ out'.inters = out.inters := by
+    ∃ (f : Int × Attrs → Int × Attrs) (extra : List (Int × Attrs)),
+      (∀ q, (f q).1 = q.1) ∧ out'.nodes = out.nodes.map f ++ extra
+      ∧ ((∀ n ∈ ns, n.repl = {}) → ∀ q, f q = q)
+      ∧ out'.edges = out.edges ∧ out'.inters = out.inters := by
   induction ns generalizing out m2o with
   | nil =>
     simp only [placeModNodes, Option.some.injEq, Prod.mk.injEq] at h
     obtain ⟨rfl, _⟩ := h
-    exact ⟨[], by simp, rfl, rfl⟩
+    exact ⟨id, [], fun _ => rfl, by simp, fun _ _ => rfl, rfl, rfl⟩
   | cons n ns ih =>
     unfold placeModNodes at h
     by_cases hn : n.isNew = true
     · rw [if_pos hn] at h
-      obtain ⟨extra, h1, h2, h3⟩ := ih _ _ h
+      obtain ⟨f, extra, hk, h1, hid, h2, h3⟩ := ih _ _ h
       rw [addNode_fresh_nodes] at h1
-      exact ⟨_, by rw [h1, List.append_assoc], by rw [h2]; rfl, by rw [h3]; rfl⟩
+      refine ⟨f, f ((if out.nodes.isEmpty then 0 else (maxKey out.keys).getD 0 + 1), n.attrs) :: extra, hk, ?_,
+        fun hr => hid (fun x hx => hr x (List.mem_cons_of_mem _ hx)), by rw [h2]; rfl, by rw [h3]; rfl⟩
+      rw [h1, List.map_append, List.append_assoc]; rfl
     · rw [if_neg hn] at h
       split at h
       · cases h
       · split at h
         · cases h
-        · exact ih _ _ h
+        · rename_i k _
+          obtain ⟨f, extra, hk, h1, hid, h2, h3⟩ := ih _ _ h
+          refine ⟨fun q => f (if q.1 = k then (q.1, n.repl.apply q.2) else q), extra, ?_, ?_, ?_, h2, h3⟩
+          · intro q
+            rw [hk]
+            split <;> rfl
+          · rw [h1]
+            simp only [updNode_eq_map, List.map_map]
+            rfl
+          · intro hr q
+            show f (if q.1 = k then (q.1, n.repl.apply q.2) else q) = q
+            rw [hid (fun x hx => hr x (List.mem_cons_of_mem _ hx))]
+            rw [hr n List.mem_cons_self, repl_apply_empty]
+            split <;> rfl
 
 def ensureNode (m : Mol) (u : Int) : Mol :=
   if m.hasNode u then m else { m with nodes := m.nodes ++ [(u, ({} : Attrs))], maxNode := none }
@@ -160,7 +187,9 @@ theorem applyMod_spec (st : St) (p : ModPlacement) (he : st.err = none) (hok : (
       ∧ (applyMod st p).outToMol = addEntriesRev st.outToMol es
       ∧ (applyMod st p).placed = st.placed ++ [p.atoms]
       ∧ (applyMod st p).overlap = st.overlap ∧ (applyMod st p).spawned = st.spawned
-      ∧ ∃ extra, (applyMod st p).out.nodes = st.out.nodes ++ extra := by
+      ∧ ∃ (f : Int × Attrs → Int × Attrs) (extra : List (Int × Attrs)),
+          (∀ q, (f q).1 = q.1) ∧ (applyMod st p).out.nodes = st.out.nodes.map f ++ extra
+          ∧ ((∀ n ∈ p.nodes, n.repl = {}) → ∀ q, f q = q) := by
   unfold applyMod at hok ⊢
   simp only [he, Option.isSome_none, Bool.false_eq_true, if_false] at hok ⊢
   generalize hpm : placeModNodes st p p.nodes st.out [] = r at hok ⊢
@@ -187,10 +216,10 @@ theorem applyMod_spec (st : St) (p : ModPlacement) (he : st.err = none) (hok : (
           | some nr =>
             simp only
             refine ⟨out1, m2o, es, rfl, h1, by first | rfl | trivial, by first | rfl | trivial, by first | rfl | trivial, by first | rfl | trivial, by first | rfl | trivial, ?_⟩
-            obtain ⟨x1, hx1, _, _⟩ := placeModNodes_prefix st p p.nodes st.out out1 [] m2o hpm
+            obtain ⟨f, x1, hk, hx1, hid, _, _⟩ := placeModNodes_prefix st p p.nodes st.out out1 [] m2o hpm
             obtain ⟨⟨x2, hx2⟩, _⟩ := foldl_addEdge_prefix edges out1
             rw [foldl_addOrReplace_nodes]
-            exact ⟨x1 ++ x2, by rw [hx2, hx1]; simp⟩
+            exact ⟨f, x1 ++ x2, hk, by rw [hx2, hx1]; simp, hid⟩
 
 theorem applyMod_err (st : St) (p : ModPlacement) (e : Outcome) (h : st.err = some e) : applyMod st p = st := by
   unfold applyMod; simp [h]
